@@ -14,7 +14,7 @@
    pack result is a 32-bit pattern, and are instantiated with the Flocq model flocq_fc. *)
 From Coq Require Import Lia.
 From Model Require Import Base Utf8 Ser Float32.
-From Proofs Require Import BytesP Utf8P SerP C13P Float32P.
+From Proofs Require Import BytesP Utf8P SerP SerNormP C13P Float32P.
 Open Scope Z_scope.
 
 (* The statement without the premise [norm fc v = SOk nv],
@@ -32,13 +32,34 @@ Theorem C13_roundtrip : forall (fc : fconv) (pk : value -> option serr) (reg : r
 Proof. exact C13_roundtrip_proof. Qed.
 Print Assumptions C13_roundtrip.
 
-(* 1'. the same for the Flocq model of struct.pack('>f') / unpack (no premise left) *)
+(* 1a. the same for the Flocq model of struct.pack('>f') / unpack (no premise left) *)
 Theorem C13_roundtrip_flocq : forall pk reg v nv,
   wf flocq_fc reg v -> norm flocq_fc v = SOk nv ->
   exists bs, enc flocq_fc reg v = SOk bs /\
     forall fuel rest, (need v <= fuel)%nat -> decode flocq_fc pk reg fuel (bs ++ rest) = SOk (nv, rest).
 Proof. exact (fun pk reg => C13_roundtrip_proof flocq_fc pk reg flocq_fc_range). Qed.
 Print Assumptions C13_roundtrip_flocq.
+
+(* 1b. the premise on norm discharged syntactically: every dict key / set element is a scalar
+       (None, bool, int, float, str, bytes) or an enum member of a scalar, all keys of one container at
+       the same enum depth [keys_ok] — then norm succeeds and the trip returns it *)
+Theorem C13_roundtrip_total : forall (fc : fconv) pk reg,
+  (forall b w, to32 fc b = SOk w -> 0 <= w < 2 ^ 32) ->
+  forall v, wf fc reg v -> keys_ok v ->
+  exists bs nv, enc fc reg v = SOk bs /\ norm fc v = SOk nv /\
+    forall fuel rest, (need v <= fuel)%nat -> decode fc pk reg fuel (bs ++ rest) = SOk (nv, rest).
+Proof. exact C13_roundtrip_total_proof. Qed.
+Print Assumptions C13_roundtrip_total.
+
+(* 1c. equality on the nose: a value without tuples whose floats are float32 values and whose dict
+       keys / set elements are hashable and pairwise different [exact] decodes to itself *)
+Theorem C13_roundtrip_exact : forall (fc : fconv) pk reg,
+  (forall b w, to32 fc b = SOk w -> 0 <= w < 2 ^ 32) ->
+  forall v, wf fc reg v -> exact fc v ->
+  exists bs, enc fc reg v = SOk bs /\
+    forall fuel rest, (need v <= fuel)%nat -> decode fc pk reg fuel (bs ++ rest) = SOk (v, rest).
+Proof. exact C13_roundtrip_exact_proof. Qed.
+Print Assumptions C13_roundtrip_exact.
 
 (* 2. concatenated encodings decode one after another (any number of values) *)
 Theorem C13_concat : forall (fc : fconv) pk reg,
@@ -127,6 +148,29 @@ Proof.
          | |- _ = true => reflexivity
          | |- _ <= _ => vm_compute; discriminate
          | |- _ < _ => vm_compute; reflexivity
+         end.
+Qed.
+
+Example ex_keys_ok : keys_ok ex_val.
+Proof.
+  cbn [keys_ok ex_val fold_right fst snd].
+  repeat match goal with
+         | |- _ /\ _ => split
+         | |- True => exact I
+         | |- exists d, _ => exists 0; reflexivity
+         end.
+Qed.
+
+Example ex_exact : exact flocq_fc (VDict [(VEnum 128 (VInt 1), VFloat 0x3FF8000000000000); (VEnum 128 (VInt 2), VSet [VInt 7; VStr [55]])]).
+Proof.
+  cbn [exact map fst snd distinct forallb fold_right hashable andb].
+  repeat match goal with
+         | |- _ /\ _ => split
+         | |- True => exact I
+         | |- Forall _ [] => constructor
+         | |- Forall _ (_ :: _) => constructor
+         | |- exists w, to32 _ _ = SOk w /\ _ => eexists; split; [vm_compute; reflexivity | vm_compute; reflexivity]
+         | |- _ = _ => reflexivity
          end.
 Qed.
 
